@@ -29,6 +29,16 @@ REQUIRED_THEOREMS = [
     "linked_result_label_independent",
     "linked_result_numeric_label_independent",
     "linked_result_label_independent_needs_injective",
+    "point_spec_unlinked_partial",
+    "fitted_eq_scale_matrix_clp_unlinked_partial",
+    "fitted_eq_scale_matrix_clp_counterexample",
+    "point_spec_linked_partial",
+    "fitted_eq_scale_matrix_clp_linked_partial",
+    "noChain_of_relations_flat",
+    "fitted_eq_scale_matrix_clp_partial",
+    "point_spec_full_model",
+    "fitted_eq_matrix_clp_global_full",
+    "legacy_layout_eq_own_of_ascending",
 ]
 TRUSTED = [
     "hand-written model lean/GlotaranModel/C03.lean (on top of C02.lean) of OptimizationGroup.create_result_data, "
@@ -43,9 +53,10 @@ ASSUMPTIONS = [
 RULE = (
     "scheme specs of the C02 generator plus: dataset labels that are prefixes/substrings of one another or whose "
     "concatenations coincide (a, ab, abc, b, bc, c), non-square data, both storage orders, noisy data, linked groups with "
-    "single-dataset aligned indices; for each spec optimize(scheme) with one function evaluation is run and every array of "
-    "every result dataset (clp, residual, weighted_residual, fitted_data, matrix labels, coordinates) is compared with the "
-    "Lean model; independently the four identities of the statement are evaluated on the result datasets alone and a relabelled "
+    "single-dataset aligned indices, and the same schemes with the global indices of some datasets stored in descending / "
+    "shuffled order; for each spec optimize(scheme) with one function evaluation is run and every array of "
+    "every result dataset (clp, residual, weighted_residual, fitted_data, matrix and global_matrix with their labels, "
+    "coordinates) is compared with the Lean model; independently the four identities of the statement are evaluated on the result datasets alone and a relabelled "
     "twin (datasets renamed) must give the same arrays; non-trivial = some residual entry non-zero; distinct = distinct spec"
 )
 RTOL = 1e-9
@@ -222,22 +233,72 @@ def model_lines(spec, res):
             weights[ds["label"]] = arr(res.data[ds["label"]].weight, "model", "global")
         else:
             weights[ds["label"]] = None
-    return gen_scheme.spec_lines(spec, weights_from_provider=weights) + ["results"]
+    return gen_scheme.spec_lines(spec, weights_from_provider=weights) + ["results", "matrices"]
+
+
+def judge_matrices(ck, spec, res, tree):
+    """`matrix` / `global_matrix` of every result dataset against `matrixAt` of the model (the M_i of
+    fitted_eq_scale_matrix_clp): labels in order, one (model x clp) slice per global index, exact (regime E)"""
+    for item in tree:
+        label = core.dec(item[0])
+        if label not in res.data:
+            return f"{label}: missing in result"
+        r = res.data[label]
+        ds = next(d for d in spec["datasets"] if d["label"] == label)
+        if item[1] == "none":
+            return f"{label}: the model has no matrix"
+        labels = [core.dec(x) for x in item[1]]
+        got_labels = [str(x) for x in r.matrix.coords["clp_label"].values]
+        if got_labels != labels:
+            return f"{label}: matrix clp labels {got_labels} vs model {labels}"
+        want = np.array([[[float(Fraction(v)) for v in row] for row in m] for m in item[2]], dtype=float)
+        G, M = len(ds["global_axis"]), len(ds["model_axis"])
+        want = want.reshape((G, M, len(labels)))
+        if r.matrix.ndim == 3:
+            got = arr(r.matrix, "global", "model", "clp_label")
+        else:
+            got = np.broadcast_to(arr(r.matrix, "model", "clp_label"), want.shape)
+            ck.count("matrix:index-independent")
+        if got.shape != want.shape or not np.array_equal(got, want):
+            return f"{label}: matrix differs from the model's matrixAt"
+        ck.count("matrix:compared")
+        if (item[3] == "none") != ("global_matrix" not in r):
+            return f"{label}: global_matrix present={('global_matrix' in r)} but model says {item[3] == 'none'}"
+        if item[3] != "none":
+            glabels = [core.dec(x) for x in item[3][0]]
+            got_gl = [str(x) for x in r.global_matrix.coords["global_clp_label"].values]
+            if got_gl != glabels:
+                return f"{label}: global clp labels {got_gl} vs model {glabels}"
+            if item[3][1] == "none":
+                return f"{label}: index dependent global matrix in the model"
+            wantg = np.array([[float(Fraction(v)) for v in row] for row in item[3][1]], dtype=float)
+            gotg = arr(r.global_matrix, "global", "global_clp_label")
+            if gotg.shape != wantg.shape or not np.array_equal(gotg, wantg):
+                return f"{label}: global_matrix differs from the model"
+            ck.count("matrix:global-compared")
+    return None
 
 
 def judge(ck, b, ans):
     spec, real = b["spec"], b["real"]
     light = {"spec": spec}
-    if any(a.startswith("bad") for a in ans[:-1]):
+    if any(a.startswith("bad") for a in ans):
         raise core.HarnessError(f"model rejected a protocol line: {[l for l, a in zip(b['lines'], ans) if a.startswith('bad')][:2]}")
     if real["error"]:
         return
     res = real["result"]
-    if not ans[-1].startswith("res "):
-        ck.disagree("model-unsolvable", f"model answered {ans[-1]!r}", light)
+    # C08 / C14 call this with the answers up to the `results` line only; C03 itself asks for `matrices` after it
+    mat_ans = ans[-1] if b["lines"][-1] == "matrices" and len(ans) == len(b["lines"]) else None
+    res_ans = ans[-2] if mat_ans is not None else ans[-1]
+    if not res_ans.startswith("res "):
+        ck.disagree("model-unsolvable", f"model answered {res_ans!r}", light)
         return
-    tree = core.parse_tree(ans[-1][4:])[0]
-    bad = None
+    if mat_ans is not None and not mat_ans.startswith("mat "):
+        raise core.HarnessError(f"model answered {mat_ans[:80]!r} to 'matrices'")
+    tree = core.parse_tree(res_ans[4:])[0]
+    bad = judge_matrices(ck, spec, res, core.parse_tree(mat_ans[4:])[0]) if mat_ans is not None else None
+    if bad:
+        tree = []
     for item in tree:
         label = core.dec(item[0])
         labels = [core.dec(x) for x in item[1]]
@@ -343,6 +404,31 @@ def flush(ck, batch):
     batch.clear()
 
 
+def unsort_axes(spec, rng):
+    """the same datasets with their global indices stored in another order (descending or shuffled global axis):
+    global axis, data / weight columns, index dependent matrix slices and global matrix rows are permuted together"""
+    s = copy.deepcopy(spec)
+    changed = False
+    for ds in s["datasets"]:
+        n = len(ds["global_axis"])
+        if n < 2 or rng.random() < 0.3:
+            continue
+        perm = list(range(n))[::-1] if rng.random() < 0.5 else rng.sample(range(n), n)
+        if perm == list(range(n)):
+            continue
+        changed = True
+        ds["global_axis"] = [ds["global_axis"][p] for p in perm]
+        ds["data"] = [[row[p] for p in perm] for row in ds["data"]]
+        if ds.get("weight") is not None:
+            ds["weight"] = [[row[p] for p in perm] for row in ds["weight"]]
+        for mc in ds["mcs"]:
+            if mc["index_dependent"]:
+                mc["base"] = [mc["base"][p] for p in perm]
+        for mc in ds.get("gmcs") or []:
+            mc["base"] = [mc["base"][p] for p in perm]
+    return s if changed else None
+
+
 def c03_spec(rng, weird=False):
     kw = {}
     if weird:
@@ -368,6 +454,12 @@ def run(ck):
         spec = c03_spec(ck.rng, weird)
         check_spec(ck, spec, batch)
         ck.count("stream:weird-labels" if weird else "stream:random")
+        if i % 3 == 1:
+            # the same scheme with the global indices of some datasets stored in another order
+            u = unsort_axes(spec, ck.rng)
+            if u is not None:
+                check_spec(ck, u, batch, twin=False)
+                ck.count("stream:unsorted-global-axes")
         if i < 2:
             ck.sample({"spec": spec})
         if len(batch) >= 40:
@@ -378,7 +470,10 @@ def run(ck):
 def search(ck):
     batch = []
     for i in range(ck.n(200, 2000)):
-        check_spec(ck, c03_spec(ck.rng, i % 3 == 0), batch, twin=False)
+        spec = c03_spec(ck.rng, i % 3 == 0)
+        if i % 4 == 1:
+            spec = unsort_axes(spec, ck.rng) or spec
+        check_spec(ck, spec, batch, twin=False)
         if len(batch) >= 40:
             flush(ck, batch)
         if ck.violations:
